@@ -111,7 +111,7 @@ func c28Mutations(r *verifx.Rng, base *verifx.Wire, spec *verifx.SigSpec) []c28M
 			ms = append(ms, c28Mut{name, w})
 		}
 	}
-	presigned := spec.Mode == verifx.ModePresign
+	presigned := spec.IsPresigned()
 
 	// ---- method
 	add("method-swap", func(w *verifx.Wire) bool {
@@ -511,16 +511,16 @@ func runC28(args []string) {
 		r := verifx.NewRng(seed ^ 0xC28)
 		sg, err := spec.Build()
 		if err != nil {
-			out.Line("req base-unsignable %s 0 - - 0", spec.Mode)
+			out.Line("req base-unsignable %s 0 - - 0", spec.Label())
 			out.Line("noview")
 			out.Line("obs 0 0 0 - 0 -")
 			out.Line("endreq")
 			out.End()
 			return
 		}
-		verifx.SendWire(out, l, "base", spec.Mode, sg.Wire, spec.Cred.AK, spec.Body, true)
+		verifx.SendWire(out, l, "base", spec.Label(), sg.Wire, spec.Cred.AK, spec.Body, true)
 		for _, m := range c28Mutations(r, sg.Wire, spec) {
-			verifx.SendWire(out, l, m.name, spec.Mode, m.w, spec.Cred.AK, spec.Body, false)
+			verifx.SendWire(out, l, m.name, spec.Label(), m.w, spec.Cred.AK, spec.Body, false)
 		}
 		// validly signed requests whose timestamp lies outside (or just inside) the window
 		type shift struct {
@@ -530,7 +530,7 @@ func runC28(args []string) {
 		}
 		shifts := []shift{{"resign-old-30m", -30 * time.Minute, 0}, {"resign-future-30m", 30 * time.Minute, 0},
 			{"resign-old-8m", -8 * time.Minute, 0}, {"resign-future-10m", 10 * time.Minute, 0}}
-		if spec.Mode == verifx.ModePresign {
+		if spec.IsPresigned() {
 			shifts = []shift{{"resign-expired", -10 * time.Minute, 300}, {"resign-future-30m", 30 * time.Minute, 900},
 				{"resign-old-but-valid", -2 * time.Hour, 86400}}
 		}
@@ -541,7 +541,7 @@ func runC28(args []string) {
 				s2.Expires = sh.exp
 			}
 			if sg2, err := s2.Build(); err == nil {
-				verifx.SendWire(out, l, sh.name, spec.Mode, sg2.Wire, spec.Cred.AK, spec.Body, false)
+				verifx.SendWire(out, l, sh.name, spec.Label(), sg2.Wire, spec.Cred.AK, spec.Body, false)
 			}
 		}
 		out.End()
@@ -557,6 +557,15 @@ func runC28(args []string) {
 			Body:   []byte("hello, mutation catalogue"), Chunks: []int{7, 9}, Trailer: "x-amz-checksum-crc32", Expires: 900,
 			Cred: verifx.SigCreds[i%2], Region: verifx.SigRegion, SignTime: now}
 		emit(uint64(i), s)
+	}
+	// the query-string carrier crossed with every other payload mode (chunk chains seeded by X-Amz-Signature)
+	for i, m := range []string{verifx.ModeHash, verifx.ModeUnsigned, verifx.ModeStream, verifx.ModeStreamTrailer, verifx.ModeStreamUnsignedTrailer, verifx.ModeStreamUnsigned} {
+		s := &verifx.SigSpec{Method: "PUT", Host: "s3.verif.test:9000", Bucket: "bucket-1", Key: "dir/presigned " + m, Mode: m, Presign: true,
+			Query:  [][2]string{{"versionId", "v1"}},
+			Header: [][2]string{{"Content-Type", "text/plain"}, {"x-amz-meta-a", "one two"}},
+			Body:   []byte("hello, presigned mutation catalogue"), Chunks: []int{7, 9}, Trailer: "x-amz-checksum-crc32c", Expires: 900,
+			Cred: verifx.SigCreds[i%2], Region: verifx.SigRegion, SignTime: now}
+		emit(uint64(100+i), s)
 	}
 	for c := 0; c < f.Cases; c++ {
 		seed := verifx.CaseSeed(f.Seed, k)
